@@ -333,7 +333,16 @@ impl<M: wire::Decode> wire::Decode for Frame<M> {
             Ok(StreamKind::Gossip) => {
                 let data = varint::payload::decode(reader)?;
                 let mut cursor = io::Cursor::new(data);
-                let msg = M::decode(&mut cursor)?;
+                let msg = match M::decode(&mut cursor) {
+                    Ok(msg) => msg,
+                    // Nb. The frame payload was read in full: if the message needs more data
+                    // than that, the frame is invalid. It isn't incomplete, and shouldn't be
+                    // reported as such, or we'd wait for more data forever.
+                    Err(e) if e.is_eof() => {
+                        return Err(wire::Error::Io(io::ErrorKind::InvalidData.into()));
+                    }
+                    Err(e) => return Err(e),
+                };
                 let frame = Frame {
                     version,
                     stream,
